@@ -1,7 +1,7 @@
 (* C01 — Selected nodes are exactly the RFC 9535 nodelist.  Statements only. *)
 From Coq Require Import List NArith ZArith Bool Permutation.
 From JP Require Import Base Ast Eval ValueModel Spec Known WellFormed Regex Entry DataFacts SelFacts
-  Refine Order SpecFacts RegexFacts.
+  Refine Order SpecFacts RegexFacts Build FragParse FragBuild Purity StringLevel.
 Import ListNotations.
 
 (* Theorem A: the model returns exactly the nodelist of the semantics with the switch sel_major
@@ -54,6 +54,19 @@ Theorem C01_borrow : forall q d ps,
   Forall (fun p => lookup d (ploc p) = Some (inner p)) ps.
 Proof. exact C01_borrow_lemma. Qed.
 Print Assumptions C01_borrow.
+
+(* string level, end to end, for the filter-free sublanguage (segments with name, wildcard, index and
+   slice selectors, unions, descendant segments; canonical spelling): query_with_path on the TEXT of the
+   query -- generated grammar, parser.rs, evaluator -- returns exactly the RFC 9535 nodes with multiplicity,
+   each of them the node at its location in the caller's document *)
+Theorem C01_string_level_filter_free : forall (q : list fseg) (d : json),
+  Forall seg_ok q -> Forall seg_range q -> wf_json d = true ->
+  exists ps,
+    api_with_path (36%N :: segs_text q) d = Some (map (fun p => (inner p, path p)) ps)
+    /\ Permutation (map node_of ps) (rfc_query (query_ast q) d)
+    /\ Forall (fun p => lookup d (ploc p) = Some (inner p)) ps.
+Proof. exact frag_end_to_end. Qed.
+Print Assumptions C01_string_level_filter_free.
 
 (* non-vacuity: a bookstore-like document, $..book[?@.price<10].title *)
 Definition ex_doc : json :=
